@@ -11,7 +11,8 @@ code there; the correspondence check feeds such magnitudes here and rounding one
 Durations are unbounded integers here; `Seg64.lean` repeats every duration computation with 64-bit
 wrap-around (what the driver runs) and `PropsInt64` relates the two.  The `Shape` oneof is looked at by `Cut`
 only (`Shape.lean`, `PropsShape`: it never influences a magnitude or length; `Sum` ignores it by its own
-comment).
+comment); `ShapeOps.lean` follows it (and the non-timing fields of a mode) through every operation that carries
+segments along.
 
 The *specification* the operations are compared with is `den`: a segment list read as a step
 function of time.  It is defined at the end of this file, independently of the operations.
